@@ -7,7 +7,18 @@ VERIF = os.path.dirname(os.path.dirname(os.path.abspath(__file__)))
 WT, TG = "/tmp/mutwt", "/tmp/mutwt_target"
 def main():
     path = sys.argv[1] if len(sys.argv) > 1 else os.path.join(VERIF, ".cache", "mutsweep.jsonl")
-    recs = [json.loads(l) for l in open(path)]
+    recs = []
+    seen = {}
+    for l in open(path):
+        r = json.loads(l)
+        k = (r["file"], r["line"], r["old"], r["new"], r["src"])
+        if k in seen:
+            if "tests" in seen[k] and "tests" not in r:
+                r["tests"] = seen[k]["tests"]
+            recs[recs.index(seen[k])] = r
+        else:
+            recs.append(r)
+        seen[k] = r
     if not os.path.isdir(WT):
         subprocess.check_call(["git", "-C", "/repo", "worktree", "add", "--detach", WT, "HEAD"])
     env = dict(os.environ, CARGO_TARGET_DIR=TG, CARGO_NET_OFFLINE="true")
